@@ -13,6 +13,8 @@ R = {
  "C02-g": (7, True, "reported by T4-none-outside-ranges (added for C04-f two hours earlier) and by T5", "SimpleDSym::m at chamber 0 for an adjacent index pair"),
  "C04-g": (7, True, "", "non-commutative automorphism group: 6 chambers with dihedral symmetry of order 6"),
  "C06-g": (7, False, "C06 T2-bound-passthrough (DSets::new configures the search with the caller's dim and max_size unmodified; root = PartialDSet::new(1, dim))", "size bound 0"),
+ "C03-g": (7, True, "reported by the proactive T9-canonical-renumbering (written an hour earlier): the early return is not the renumbered builder", "a connected symbol of size >= 3 where chamber 1 is an optimal seed but the other chambers are not in traversal order"),
+ "C05-g": (7, True, "reported by the C12 check (is_canonical is C12 code shared with covers)", "k >= 4 and a base group with a class whose only smaller renumbering starts at row 1: covers(*433, 4) has 5 entries instead of 4"),
  "C19-g": (7, True, "", "undirected edge cut with source label > sink label; inside_vertices is then the sink's side"),
 }
 for sid, (rnd, first, strength, needs) in R.items():
